@@ -231,7 +231,7 @@ class VerifyAttrs(object):
                 raise RuntimeError("Bad value for intent: " + attrs["intent"])
             if not is_ptr and intent != "in":
                 # Nonpointers can only be intent(in).
-                raise RuntimeError("{}: Only pointer arguments may have intent attribute".format(node.linenumber))
+                raise RuntimeError("{}: Only pointer arguments may have intent attribute".format(getattr(node, "linenumber", "?")))
         meta["intent"] = intent
         return intent    
         
@@ -405,7 +405,7 @@ class VerifyAttrs(object):
             ]:
                 raise RuntimeError(
                     "Illegal attribute '{}' for argument '{}' defined at line {}".format(
-                        attr, argname, node.linenumber
+                        attr, argname, getattr(node, "linenumber", "?")
                     )
                 )
 
@@ -425,7 +425,7 @@ class VerifyAttrs(object):
             # Sanity check to make sure arg_typemap exists
             raise RuntimeError(
                 "check_arg_attrs: Missing arg.typemap on line {}: {}".format(
-                    node.linenumber, node.decl
+                    getattr(node, "linenumber", "?"), getattr(node, "decl", arg.gen_decl())
                 )
             )
 
@@ -503,7 +503,7 @@ class VerifyAttrs(object):
             if not temp:
                 raise RuntimeError(
                     "line {}: std::vector must have template argument: {}".format(
-                        node.linenumber, arg.gen_decl()
+                        getattr(node, "linenumber", "?"), arg.gen_decl()
                     )
                 )
             arg_typemap = arg.template_arguments[0].typemap
